@@ -56,14 +56,14 @@ def bounded(tier, seed):
             other = P.fmt(P.relayout(d, rnd), width=w, semantic=s)
             if other != base:
                 viol.append({"clause": "relayout_invariant", "input": {"text": d, "options": {"width": w, "semantic": s}, **P.doc_features(d)},
-                             "got": other[:300], "want": base[:300]})
+                             "got": other[:6000], "want": base[:6000]})
         for (w1, s1), (w2, s2) in pairs[: 3 if tier == "quick" else 6]:
             direct = P.fmt(d, width=w2, semantic=s2)
             via = P.fmt(P.fmt(d, width=w1, semantic=s1), width=w2, semantic=s2)
             evals += 1
             if via != direct:
                 viol.append({"clause": "two_pass_canonical", "input": {"text": d, "options": {"first": [w1, s1], "then": [w2, s2]},
-                                                                       **P.doc_features(d)}, "got": via[:300], "want": direct[:300]})
+                                                                       **P.doc_features(d)}, "got": via[:6000], "want": direct[:6000]})
     # paragraphs with tags in mid-line position: soft breaks elsewhere are not significant
     for i in range(60 if tier == "quick" else 600):
         a, b = tag_paragraph_layouts(rnd)
@@ -75,7 +75,7 @@ def bounded(tier, seed):
                 distinct.add(oa)
                 if oa != ob:
                     viol.append({"clause": "relayout_invariant", "input": {"text": da, "other_layout": db, "options": {"width": w, "semantic": sm},
-                                                                           **P.doc_features(da)}, "got": ob[:300], "want": oa[:300]})
+                                                                           **P.doc_features(da)}, "got": ob[:6000], "want": oa[:6000]})
     return {"evaluations": evals, "distinct_nontrivial": len(distinct), "violations": viol, "samples": [{"text": docs[0]}],
             "rule": "seeded documents (no hazard words): multiplying inter-word spaces leaves the output unchanged at (88,fill), "
                     "(20,fill), (30,semantic); formatting first with (w1,mode1) and then with (w2,mode2) equals formatting with "
